@@ -466,7 +466,7 @@ class SimProcess:
         self.target, self.args, self.kwargs, self.env = target, args, kwargs, env
         self.pid = None
         self._dead = False
-        self.exitcode = None
+        self._exitcode = None
         self.name = name or "SimProcess"
         self.sentinel = Sentinel(self)
         self.conns = []
@@ -524,7 +524,7 @@ class SimProcess:
         if self._dead:
             return
         self._dead = True
-        self.exitcode = code
+        self._exitcode = code
         self.how = how
         for c in self.conns:
             c.close()
@@ -540,6 +540,12 @@ class SimProcess:
         # died while writing its exit announcement (put(pid)): on the result queue and not since a task ran
         ann = at.split(":")[-1].startswith("rq.") and not any(l.endswith("task.run") for l in hist)
         S.obs(ev="die", pid=self.pid, how=how, code=code, at=at, late=late, ann=ann, reason=reason if how == "exit" else how)
+
+    @property
+    def exitcode(self):
+        # a program that ignores SIGCHLD cannot learn how its children ended: waitpid fails with ECHILD and the exit code of a
+        # finished process stays None (scenario input S.no_exitcode)
+        return None if getattr(S, "no_exitcode", False) else self._exitcode
 
     def is_alive(self):
         S.step("is_alive(%s)" % self.pid)
@@ -668,6 +674,12 @@ def install():
     simthreading = Facade(threading, Lock=mk_lock, RLock=mk_rlock, Condition=mk_cond)
 
     def sim_sleep(d):
+        if d >= 10:
+            # a long pause (e.g. a slow done-callback): the thread is out of the game until time has passed -- shorter
+            # timers (idle timeouts, the 30 s exit handshake) fire first
+            S.step("sleep.long", pred=lambda: False, timed=d)
+            S.now += d
+            return
         S.step("sleep")
         S.now += d
     simtime = Facade(_rtime, monotonic=lambda: S.now, time=lambda: S.now, sleep=sim_sleep)
